@@ -80,7 +80,11 @@ def gen_call(rng):
             ws = [round(rng.random(), 2) for _ in range(n)]
             if sum(ws) == 0:
                 ws[0] = 0.5
-        return [m, [[f"i{j}" for j in range(n)], ws]]
+        items = [f"i{j}" for j in range(n)]
+        if rng.random() < 0.25 and n >= 2:
+            # members that compare equal but sit at different positions (with different weights)
+            items = rng.choice([["x"] * n, [1, 1.0, True, "a", 1][:n], [items[0]] * (n - 1) + [items[-1]]])
+        return [m, [items, ws]]
     if m == "gauss":
         return [m, [rng.choice([0, 1.5]), rng.choice([1, 0.1])]]
     return [m, [rng.randrange(0, 4), 0, 1]]
@@ -125,13 +129,14 @@ def contract(call, val):
         item, w = (val, None) if m == "choice" else val
         if item not in seq:
             return f"{m} returned {item!r} which is not in the sequence"
-        i = seq.index(item)
-        if ws is not None and ws[i] == 0:
+        # members may compare equal (duplicates, 1 == 1.0 == True): the chosen member is one of the equal positions with non-zero weight
+        pos = [i for i, x in enumerate(seq) if x == item and (ws is None or ws[i] != 0)]
+        if not pos:
             return f"{m} returned {item!r} whose weight is zero (weights {ws})"
         if m == "choicew":
-            want = ws[i] if ws is not None else 1 / len(seq)
-            if w != want:
-                return f"choicew reported weight {w!r} for {item!r}, its weight is {want!r}"
+            wants = {ws[i] for i in pos} if ws is not None else {1 / len(seq)}
+            if w not in wants:
+                return f"choicew reported weight {w!r} for {item!r}; the non-zero weights of members equal to it are {sorted(wants)!r}"
     elif m in ("gauss", "gausses"):
         vals = [val] if m == "gauss" else list(val)
         if m == "gausses" and len(vals) != a[0]:
@@ -175,7 +180,7 @@ class C05:
     level = "exploration"
     design_ref = "DESIGN.md 3.5"
     tiers = {"quick": {"runs": 40000, "budget_s": 80, "chunk": 150, "twice_every": 30, "shrink_s": 30},
-             "thorough": {"runs": 600000, "budget_s": 840, "chunk": 200, "twice_every": 100, "shrink_s": 60}}
+             "thorough": {"runs": 3000000, "budget_s": 840, "chunk": 200, "twice_every": 100, "shrink_s": 60}}
     rule = ("one run = 2-5 callers, each CobaRandom(seed_i) (int, float, str and boundary-state pre-image seeds) with a script of 2-8 calls "
             "(random/randoms/randint/randints/shuffle/choice/choicew/gauss/gausses incl. empty and singleton sequences, zero weights, "
             "degenerate bounds), interleaved call-by-call by the seeded scheduler with an interference task (coba.random.seed and module-level "
